@@ -695,6 +695,7 @@ var rfcTagged = []struct {
 	{"c349010000000000000000", -18446744073709551617},
 	{"c24101", 1},
 	{"c340", -1},
+	{"c2588101"+strings.Repeat("00", 128), math.Inf(1)}, // 2^1024: overflow error
 	{"c24105", 5},                                 // F02-5: was 16645
 	{"c48219010001", 1e256},                       // F10-3: exponent was truncated to int8
 	{"c482381c01", 1e-29},                         // F10-3: was "unexpected EOF"
@@ -777,7 +778,11 @@ func rfcStream(c *ctx) {
 		if o.it != nil {
 			cj["decoded"] = o.it.Canon()
 		}
-		if o.cls != clsOK || o.it == nil || o.it.K != KF64 || o.it.Bits != math.Float64bits(e.want) || o.nread != len(b) {
+		bad := o.cls != clsOK || o.it == nil || o.it.K != KF64 || o.it.Bits != math.Float64bits(e.want) || o.nread != len(b)
+		if math.IsInf(e.want, 0) { // a finite number beyond the float64 range: an overflow error, not an infinity
+			bad = o.cls != clsOther
+		}
+		if bad {
 			c.sum.FailC("dec.rfc", fmt.Sprintf("in:tagged-number:tag%d", b[0]&0x1f), "a well-formed bignum / decimal fraction / bigfloat did not decode to its value", cj)
 		}
 		c.sum.Count("dec.rfc", "rfc/"+e.hex)
@@ -830,7 +835,11 @@ func taggedRandStream(c *ctx, n int) {
 		if o.it != nil {
 			cj["decoded"] = o.it.Canon()
 		}
-		if o.cls != clsOK || o.it == nil || o.it.K != KF64 || (math.Float64frombits(o.it.Bits) != want) || o.nread != len(b) {
+		bad := o.cls != clsOK || o.it == nil || o.it.K != KF64 || (math.Float64frombits(o.it.Bits) != want) || o.nread != len(b)
+		if math.IsInf(want, 0) {
+			bad = o.cls != clsOther
+		}
+		if bad {
 			c.sum.FailC("dec.rfc", fmt.Sprintf("in:tagged-number:tag%d", tag), "a well-formed bignum / decimal fraction / bigfloat did not decode to its value", cj)
 		}
 		c.sum.Count("dec.rfc", fmt.Sprintf("rfcrand/%d/%d/%d", tag, exp, min(63, bitsLen(mant))))
